@@ -61,6 +61,25 @@ def _ctor_keys(v):
 
 
 # ------------------------------------------------------------------ families
+class _StopAfter:
+    """picklable callback: asks the adversarial fit to stop once `k` steps are done"""
+
+    def __init__(self, k):
+        self.k = k
+
+    def __call__(self, est, step=None, **kw):
+        return (est.n_iter_ if step is None else step) >= self.k
+
+    def __eq__(self, other):
+        return isinstance(other, _StopAfter) and other.k == self.k
+
+    def __hash__(self):
+        return hash(("_StopAfter", self.k))
+
+    def __repr__(self):
+        return f"_StopAfter({self.k})"
+
+
 class Family:
     name = "?"
     picklable = True
@@ -382,6 +401,8 @@ class AdvFam(Family):
                   batch_size=c.get("batch_size", 4), shuffle=True, random_state=c.get("random_state", 11),
                   learning_rate=0.05, alpha=1.0, warm_start=bool(c.get("warm_start", False)),
                   constraints=c.get("constraints", "demographic_parity"))
+        if c.get("stop_after"):
+            kw["callbacks"] = [_StopAfter(int(c["stop_after"]))]
         kw.update(over)
         return (AdversarialFairnessRegressor if self.regress else AdversarialFairnessClassifier)(**kw)
 
